@@ -249,7 +249,7 @@ func c06Proposer(c *Ctx) {
 	var got string
 	eachInstr(ab, func(in ssa.Instruction) {
 		cc := callCommon(in)
-		if cc == nil || cc.StaticCallee() == nil || cc.StaticCallee().Name() != "encode" {
+		if cc == nil || cc.StaticCallee() == nil || canonFuncName(cc.StaticCallee()) != "encode" {
 			return
 		}
 		t := p.TermOf(cc.Args[1])
